@@ -6,7 +6,7 @@ CONSTANTS
   BatchSizes = {1, 2}
   DupInBatch = TRUE
   MaxPoints = 3
-  MaxSnaps = 2
+  MaxSnaps = 3
   MaxCompacts = 2
   MaxDeletes = 0
   MaxReopens = 1
@@ -15,5 +15,6 @@ CONSTANTS
   SnapDeleteOverlap = FALSE
   MaxOps = 1000
 INVARIANTS TypeOK FilesSorted GenFresh WALMatchesCache VisibleEqualsModel ReadEqualsModel DuringDelete DuringWrite NoResurrection
+PROPERTIES FinStable
 VIEW View
 CHECK_DEADLOCK FALSE
